@@ -69,6 +69,49 @@ func probe(a arg) (string, string) {
 	return "", ""
 }
 
+// history of depth 2: two filters built one after the other must both keep their own bounds
+type histArg struct {
+	F1, T1, F2, T2 *ymd
+	Probes         []ymd `json:"probes"`
+}
+
+func probeHist(h histArg) (string, string) {
+	build := func(f, t *ymd) (date.Filter, *date.Date, *date.Date) {
+		var fp, tp *date.Date
+		if f != nil {
+			v := f.date()
+			fp = &v
+		}
+		if t != nil {
+			v := t.date()
+			tp = &v
+		}
+		fl, _ := date.FilterFromTo(fp, tp)
+		return fl, fp, tp
+	}
+	f1, _, _ := build(h.F1, h.T1)
+	f2, _, _ := build(h.F2, h.T2)
+	for i, c := range []struct {
+		fl   date.Filter
+		f, t *ymd
+	}{{f1, h.F1, h.T1}, {f2, h.F2, h.T2}} {
+		bad := c.f != nil && c.t != nil && c.f.ord() > c.t.ord()
+		if bad != (c.fl == nil) {
+			return "after_other_construction:refusal", fmt.Sprintf("filter %d (%v..%v) built=%v", i+1, c.f, c.t, c.fl != nil)
+		}
+		if c.fl == nil {
+			continue
+		}
+		for _, p := range h.Probes {
+			want := (c.f == nil || p.ord() >= c.f.ord()) && (c.t == nil || p.ord() <= c.t.ord())
+			if got := c.fl.Contains(p.date()); got != want {
+				return "after_other_construction:contains", fmt.Sprintf("two filters built one after the other (%v..%v then %v..%v): filter %d Contains(%v) = %v want %v", h.F1, h.T1, h.F2, h.T2, i+1, p, got, want)
+			}
+		}
+	}
+	return "", ""
+}
+
 func main() {
 	mc.Main("C15", "all (from, to) pairs over a date window x 4 nil/non-nil shapes, each probed with every date of the window, against day ordinals; "+
 		"non-trivial = both bounds given and they differ in month or year", func(r *mc.Run) {
@@ -92,6 +135,23 @@ func main() {
 			win = append(win, ymd{y, 6, 15}, ymd{y, 5, 16}, ymd{y, 7, 14})
 		}
 		n := int64(len(win))
+		phist := mc.NewProbe(r, "history2", nil, probeHist)
+		r.Phase("serial: all histories of two filter constructions over 6 bounds (incl. nil) - both filters are probed afterwards", "complete for depth 2 over the listed bounds", func() {
+			bs := []*ymd{nil, {2024, 2, 28}, {2024, 2, 29}, {2024, 3, 1}, {2023, 12, 31}, {1, 1, 1}}
+			probes := []ymd{{2024, 2, 27}, {2024, 2, 28}, {2024, 2, 29}, {2024, 3, 1}, {2024, 3, 2}, {2023, 12, 30}, {2023, 12, 31}, {2024, 1, 1}, {1, 1, 1}, {0, 12, 31}, {1, 1, 2}}
+			r.Serial(func(w *mc.W) {
+				for _, a := range bs {
+					for _, b := range bs {
+						for _, c := range bs {
+							for _, d := range bs {
+								w.Point()
+								phist.Do(w, histArg{a, b, c, d, probes})
+							}
+						}
+					}
+				}
+			})
+		})
 		r.Phase(fmt.Sprintf("all (from,to) pairs of %d dates x shapes {both,from only,to only,none} x all %d probe dates, before and after the caller's variables are overwritten", n, n), "complete", func() {
 			r.Parallel(n, 1, func(w *mc.W, i int64) {
 				from := win[i]
